@@ -1,10 +1,12 @@
 // harness — the Go side of the correspondence check.  Built from /repo's current
 // working tree with -tags verif.  For one property it writes, into -dir:
-//   cases.txt   one operation per line: "<id> <cmd> <args…>"   (fed to the Lean driver)
-//   impl.txt    "<id> <canonical observable>" from running the real code on that line
-//   oracle.txt  "<id> <signature> :: <description>" for oracle failures the harness itself
-//               evaluates on the implementation's behaviour (concurrency properties)
-//   stats.json  the input distribution of this run
+//
+//	cases.txt   one operation per line: "<id> <cmd> <args…>"   (fed to the Lean driver)
+//	impl.txt    "<id> <canonical observable>" from running the real code on that line
+//	oracle.txt  "<id> <signature> :: <description>" for oracle failures the harness itself
+//	            evaluates on the implementation's behaviour (concurrency properties)
+//	stats.json  the input distribution of this run
+//
 // Every random choice derives from -seed; case i uses PRNG(seed, i).
 package main
 
@@ -12,35 +14,51 @@ import (
 	"bufio"
 	"encoding/json"
 	"flag"
+	"fmt"
 	"io"
 	"log"
-	"fmt"
 	"math/rand"
 	"os"
 	"path/filepath"
+	"runtime"
 	"runtime/debug"
 	"sort"
 	"strings"
 	"sync"
+	"sync/atomic"
+	"time"
 )
 
 type Ctx struct {
-	prop  string
-	tier  string
-	seed  int64
-	dir   string
-	cases *bufio.Writer
-	impl  *bufio.Writer
-	orac  *bufio.Writer
-	jrnl  *os.File
-	mu    sync.Mutex
-	n     int
-	dist  map[string]int
-	samples []string
-	nontriv map[string]bool
+	prop     string
+	tier     string
+	seed     int64
+	dir      string
+	cases    *bufio.Writer
+	impl     *bufio.Writer
+	orac     *bufio.Writer
+	jrnl     *os.File
+	deadline time.Time
+	mu       sync.Mutex
+	n        int
+	dist     map[string]int
+	samples  []string
+	nontriv  map[string]bool
 }
 
 func (c *Ctx) thorough() bool { return c.tier == "thorough" }
+
+// stop reports that the wall-clock budget of this run is used up: generators end their
+// loops early (what was explored so far is still compared and reported).
+func (c *Ctx) stop() bool {
+	if time.Now().After(c.deadline) {
+		c.mu.Lock()
+		c.dist["budget-exhausted"] = 1
+		c.mu.Unlock()
+		return true
+	}
+	return false
+}
 
 // scale picks the quick or thorough volume.
 func (c *Ctx) scale(quick, thorough int) int {
@@ -81,6 +99,7 @@ func (c *Ctx) emit(line, obs string, nontrivial bool) {
 func (c *Ctx) begin(line string) {
 	c.mu.Lock()
 	defer c.mu.Unlock()
+	atomic.StoreInt64(&caseStart, time.Now().UnixNano())
 	if c.jrnl != nil {
 		c.jrnl.Truncate(0)
 		c.jrnl.WriteAt([]byte(line+"\n"), 0)
@@ -110,8 +129,25 @@ func guard(f func() string) (out string) {
 
 var lastPanic string
 
+// caseStart is when the journaled case began; the watchdog ends the process when one case
+// runs for more than a minute (a hang), leaving the journal to name it.
+var caseStart int64
+
+func watchdog(limit time.Duration) {
+	for {
+		time.Sleep(time.Second)
+		st := atomic.LoadInt64(&caseStart)
+		if st != 0 && time.Since(time.Unix(0, st)) > limit {
+			buf := make([]byte, 1<<16)
+			n := runtime.Stack(buf, true)
+			fmt.Fprintf(os.Stderr, "fatal error: harness watchdog: case running for more than %v\n%s\n", limit, buf[:n])
+			os.Exit(3)
+		}
+	}
+}
+
 type propRunner struct {
-	gen  func(c *Ctx)                  // generate + execute cases
+	gen  func(c *Ctx)                     // generate + execute cases
 	exec func(line string) (string, bool) // execute one line (replay, corpus)
 }
 
@@ -124,7 +160,9 @@ func main() {
 	dir := flag.String("dir", "", "output directory")
 	replay := flag.String("replay", "", "file of case lines to execute instead of generating")
 	corpus := flag.String("corpus", "", "corpus file of case lines executed first")
+	budget := flag.Duration("budget", 0, "wall-clock budget for generation (default 150s quick, 25m thorough)")
 	flag.Parse()
+	go watchdog(90 * time.Second)
 	log.SetOutput(io.Discard) // the library logs dropped connections; keep the channel to ./check clean
 	pr, ok := props[*prop]
 	if !ok {
@@ -150,6 +188,13 @@ func main() {
 	must(err)
 	c := &Ctx{prop: *prop, tier: *tier, seed: *seed, dir: *dir, cases: cw, impl: iw, orac: ow, jrnl: jf,
 		dist: map[string]int{}, nontriv: map[string]bool{}}
+	if *budget == 0 {
+		*budget = 150 * time.Second
+		if *tier == "thorough" {
+			*budget = 25 * time.Minute
+		}
+	}
+	c.deadline = time.Now().Add(*budget)
 	runFile := func(path string) {
 		f, err := os.Open(path)
 		if err != nil {
@@ -184,6 +229,7 @@ func main() {
 	} else {
 		pr.gen(c)
 	}
+	atomic.StoreInt64(&caseStart, 0)
 	jf.Truncate(0)
 	jf.Close()
 	cw.Flush()
